@@ -19,13 +19,31 @@ namespace Suiron.Spec.Grp
 open Suiron Suiron.Spec
 
 mutual
-/-- goals of the fragment: calls, built-ins (the cut among them), non-empty conjunctions and disjunctions -/
+/-- goals in which no `!` is written (outside the clauses they call) -/
+def ncG : Goal → Bool
+  | .call _ => true
+  | .bip name _ => name != "!"
+  | .and gs => ncGL gs
+  | .or gs => ncGL gs
+  | .not gs => ncGL gs
+  | .time gs => ncGL gs
+  | .nil => true
+def ncGL : GoalList → Bool
+  | .nil => true
+  | .cons g gs => ncG g && ncGL gs
+end
+
+mutual
+/-- goals of the fragment: calls, built-ins (the cut among them), non-empty conjunctions and disjunctions, and
+    `not(...)` / `time(...)` of goals of the fragment in which no `!` is written -/
 def okG : Goal → Bool
   | .call _ => true
   | .bip _ _ => true
   | .and gs => gs.length != 0 && okGL gs
   | .or gs => gs.length != 0 && okGL gs
-  | _ => false
+  | .not gs => gs.length != 0 && okGL gs && ncGL gs
+  | .time gs => gs.length != 0 && okGL gs && ncGL gs
+  | .nil => false
 def okGL : GoalList → Bool
   | .nil => true
   | .cons g gs => okG g && okGL gs
@@ -63,7 +81,10 @@ def absC (c : Bool) : Node → List CG → Nat → Nat → List CFrame
       | some tn => absC c tn k bar h
       | none => absC false head (grpK head bar k) bar (h + (if nb then [] else altF rest bar k σ).length) ++
                   (if nb then [] else altF rest bar k σ)
-  | .op _ _ _ _ _ _ _, _, _, _ => []
+  | .op .not σ nb more head _ _, k, _, _ =>
+    if nb || !more then [] else [.notF (absC false head (grpK head 0 []) 0 0) σ k]
+  | .op .time _ nb more head _ _, k, _, _ =>
+    if nb || !more then [] else [.timeF (absC false head (grpK head 0 []) 0 0) k]
 
 /-- at rest the node stands for nothing -/
 def deadC (N : Node) : Prop := ∀ k bar h, absC false N k bar h = []
@@ -74,6 +95,12 @@ def askable : Node → Prop
   | .op .or _ nb _ _ _ tail => nb = false ∧ (match tail with | some tn => askable tn | none => True)
   | _ => True
 
+/-- nodes in which no `!` is written -/
+def ncN : Node → Prop
+  | .bip name _ _ _ _ => name ≠ "!"
+  | .call _ _ _ _ _ _ => True
+  | .op _ _ _ _ head rest tail => ncGL rest = true ∧ ncN head ∧ (match tail with | some tn => ncN tn | none => True)
+
 /-- nodes of the fragment -/
 def okN : Node → Prop
   | .bip _ _ _ _ _ => True
@@ -82,7 +109,8 @@ def okN : Node → Prop
     okGL rest = true ∧ okN head ∧ (match tail with | some tn => okN tn | none => True) ∧ (rest.length = 0 → tail = none)
   | .op .or _ _ _ head rest tail =>
     okGL rest = true ∧ okN head ∧ (match tail with | some tn => okN tn | none => True)
-  | .op _ _ _ _ _ _ _ => False
+  | .op .not _ _ _ head _ _ => okN head ∧ ncN head
+  | .op .time _ _ _ head _ _ => okN head ∧ ncN head
 
 theorem absC_nb (N : Node) (hn : N.nb = true) : deadC N := by
   intro k bar h
@@ -146,6 +174,54 @@ theorem cEmit_eq (g : G) (s : String) : (g.emit s).out = cEmit g.out s ∧ (g.em
 theorem altF_length_le (gs : GoalList) (bar : Nat) (k : List CG) (σ : Subst) : (altF gs bar k σ).length ≤ 1 := by
   unfold altF; split <;> simp
 
+@[reducible] def optNc : Option Node → Prop
+  | some tn => ncN tn
+  | none => True
+
+theorem ncN_op {kd : OpKind} {σ : Subst} {nb more : Bool} {head : Node} {rest : GoalList} {tail : Option Node}
+    (h1 : ncGL rest = true) (h2 : ncN head) (h3 : optNc tail) : ncN (.op kd σ nb more head rest tail) := by
+  unfold ncN; cases tail <;> exact ⟨h1, h2, h3⟩
+
+theorem mkNode_nc (sf : UInt64 → String) (kb : KB) : (g : Goal) → (σ : Subst) → (G0 : G) → (N : Node) → (G1 : G) →
+    mkNode sf kb g σ G0 = .ok (N, G1) → ncG g = true → ncN N
+  | .call t, σ, G0, N, G1, h, _ => by
+    simp only [mkNode] at h
+    obtain ⟨key, _, h⟩ := Res.bind_eq_ok.mp h
+    cases h; trivial
+  | .bip name args, σ, G0, N, G1, h, hp => by
+    simp only [mkNode] at h; cases h
+    show name ≠ "!"
+    simpa [ncG] using hp
+  | .and (.cons hd rest), σ, G0, N, G1, h, hp => by
+    simp only [mkNode] at h
+    obtain ⟨r, hr, h⟩ := Res.bind_eq_ok.mp h
+    cases h
+    simp only [ncG, ncGL, Bool.and_eq_true] at hp
+    exact ncN_op hp.2 (mkNode_nc sf kb hd σ G0 r.1 r.2 hr hp.1) trivial
+  | .or (.cons hd rest), σ, G0, N, G1, h, hp => by
+    simp only [mkNode] at h
+    obtain ⟨r, hr, h⟩ := Res.bind_eq_ok.mp h
+    cases h
+    simp only [ncG, ncGL, Bool.and_eq_true] at hp
+    exact ncN_op hp.2 (mkNode_nc sf kb hd σ G0 r.1 r.2 hr hp.1) trivial
+  | .not (.cons hd rest), σ, G0, N, G1, h, hp => by
+    simp only [mkNode] at h
+    obtain ⟨r, hr, h⟩ := Res.bind_eq_ok.mp h
+    cases h
+    simp only [ncG, ncGL, Bool.and_eq_true] at hp
+    exact ncN_op rfl (mkNode_nc sf kb hd σ G0 r.1 r.2 hr hp.1) trivial
+  | .time (.cons hd rest), σ, G0, N, G1, h, hp => by
+    simp only [mkNode] at h
+    obtain ⟨r, hr, h⟩ := Res.bind_eq_ok.mp h
+    cases h
+    simp only [ncG, ncGL, Bool.and_eq_true] at hp
+    exact ncN_op rfl (mkNode_nc sf kb hd σ G0 r.1 r.2 hr hp.1) trivial
+  | .and .nil, _, _, _, _, h, _ => by simp [mkNode] at h
+  | .or .nil, _, _, _, _, h, _ => by simp [mkNode] at h
+  | .not .nil, _, _, _, _, h, _ => by simp [mkNode] at h
+  | .time .nil, _, _, _, _, h, _ => by simp [mkNode] at h
+  | .nil, _, _, _, _, h, _ => by simp [mkNode] at h
+
 /-- building the node of a goal of the fragment is the machine's work on that goal up to its first choice point -/
 theorem mkG_steps (fo : FloatOps) (kb : KB) : (g : Goal) → (σ : Subst) → (G0 : G) → (N : Node) → (G1 : G) → (k : List CG) →
     (bar h : Nat) → (S : List CFrame) → mkNode fo.showF kb g σ G0 = .ok (N, G1) → okG g = true → GOK G0 →
@@ -187,8 +263,30 @@ theorem mkG_steps (fo : FloatOps) (kb : KB) : (g : Goal) → (σ : Subst) → (G
     exact CSteps.step CStep.disj (CSteps.step CStep.altStep ih.1)
   | .and .nil, _, _, _, _, _, _, _, _, hm, _, _ => by simp [mkNode] at hm
   | .or .nil, _, _, _, _, _, _, _, _, hm, _, _ => by simp [mkNode] at hm
-  | .time _, _, _, _, _, _, _, _, _, _, hp, _ => by simp [okG] at hp
-  | .not _, _, _, _, _, _, _, _, _, _, hp, _ => by simp [okG] at hp
+  | .not (.cons hd rest), σ, G0, N, G1, k, bar, h, S, hm, hp, hok => by
+    simp only [mkNode] at hm
+    obtain ⟨r, hr, hm⟩ := Res.bind_eq_ok.mp hm
+    cases hm
+    simp only [okG, okGL, ncGL, Bool.and_eq_true] at hp
+    have ih := mkG_steps fo kb hd σ G0 r.1 r.2 [] 0 0 [] hr hp.1.2.1 hok
+    refine ⟨?_, ih.2.1, ih.2.2.1, ih.2.2.2.1, ⟨ih.2.2.2.2.1, mkNode_nc fo.showF kb hd σ G0 r.1 r.2 hr hp.2.1⟩, trivial⟩
+    simp only [absC, grpK, isGrp, Bool.false_eq_true, if_false, Bool.or_false, Bool.not_true, List.cons_append, List.nil_append]
+    have := ih.1.notIn σ k S
+    simp only [List.append_nil] at this
+    exact CSteps.step CStep.notEnter this
+  | .time (.cons hd rest), σ, G0, N, G1, k, bar, h, S, hm, hp, hok => by
+    simp only [mkNode] at hm
+    obtain ⟨r, hr, hm⟩ := Res.bind_eq_ok.mp hm
+    cases hm
+    simp only [okG, okGL, ncGL, Bool.and_eq_true] at hp
+    have ih := mkG_steps fo kb hd σ G0 r.1 r.2 [] 0 0 [] hr hp.1.2.1 hok
+    refine ⟨?_, ih.2.1, ih.2.2.1, ih.2.2.2.1, ⟨ih.2.2.2.2.1, mkNode_nc fo.showF kb hd σ G0 r.1 r.2 hr hp.2.1⟩, trivial⟩
+    simp only [absC, grpK, isGrp, Bool.false_eq_true, if_false, Bool.or_false, Bool.not_true, List.cons_append, List.nil_append]
+    have := ih.1.timeIn k S
+    simp only [List.append_nil] at this
+    exact CSteps.step CStep.timeEnter this
+  | .not .nil, _, _, _, _, _, _, _, _, hm, _, _ => by simp [mkNode] at hm
+  | .time .nil, _, _, _, _, _, _, _, _, hm, _, _ => by simp [mkNode] at hm
   | .nil, _, _, _, _, _, _, _, _, _, hp, _ => by simp [okG] at hp
 
 /-- the node the engine makes for the rest of a conjunction, against the goals already spliced into the continuation -/
@@ -297,6 +395,162 @@ theorem CRun.pre {fo : FloatOps} {kb : KB} {a b : CConf} {tr : List (Option Subs
   | nil => exact .nil
   | ans h1 t => exact .ans (h.trans h1) t
   | fin h1 t => exact .fin (h.trans h1) t
+
+/-! ### goals without a cut never raise the cut flag -/
+
+/-- a call never passes a cut on -/
+theorem call_nocut (fo : FloatOps) (kb : KB) : ∀ f,
+    (∀ t σ nb child idx n g, Res.all (fun st => st.cut = false) (callLoop fo kb f t σ nb child idx n g)) := by
+  intro f
+  induction f with
+  | zero => intro t σ nb child idx n g; trivial
+  | succ f ih =>
+    intro t σ nb child idx n g
+    simp only [callLoop]; allk
+
+theorem next_call_nocut (fo : FloatOps) (kb : KB) (f : Nat) (t : Term) (σ : Subst) (nb : Bool) (child : Option Node) (idx n : Nat) (g : G) (st : Step)
+    (h : next fo kb f (.call t σ nb child idx n) g = .ok st) : st.cut = false := by
+  cases f with
+  | zero => simp [next] at h
+  | succ f =>
+    have ih := call_nocut fo kb f
+    have : Res.all (fun st => st.cut = false) (next fo kb (f + 1) (.call t σ nb child idx n) g) := by
+      simp only [next, Node.nb]; allk
+    rw [h] at this; exact this
+
+theorem ncN_of_call {N : Node} (h : kindOf N = 1) : ncN N := by
+  cases N with
+  | bip _ _ _ _ _ => simp [kindOf] at h
+  | call _ _ _ _ _ _ => trivial
+  | op kd _ _ _ _ _ _ => cases kd <;> simp [kindOf] at h
+
+theorem ncN_parts {kd : OpKind} {σ : Subst} {nb more : Bool} {head : Node} {rest : GoalList} {tail : Option Node}
+    (h : ncN (.op kd σ nb more head rest tail)) : ncGL rest = true ∧ ncN head ∧ optNc tail := by
+  unfold ncN at h; cases tail <;> exact h
+
+theorem nc_all (fo : FloatOps) (kb : KB) : ∀ f,
+    (∀ N g st, next fo kb f N g = .ok st → ncN N → st.cut = false ∧ ncN st.node) ∧
+    (∀ σ nb more head rest tail cutAcc g st, andLoop fo kb f σ nb more head rest tail cutAcc g = .ok st →
+       cutAcc = false → ncGL rest = true → ncN head → optNc tail → st.cut = false ∧ ncN st.node) := by
+  intro f
+  induction f with
+  | zero =>
+    refine ⟨?_, ?_⟩
+    · intro N g st h; simp [next] at h
+    · intro σ nb more head rest tail cutAcc g st h; simp [andLoop] at h
+  | succ f ih =>
+    obtain ⟨ihN, ihA⟩ := ih
+    refine ⟨?_, ?_⟩
+    · intro N g st hn hnc
+      by_cases hnb : N.nb = true
+      · have e := next_marked fo kb (f + 1) N g st hn hnb
+        subst e; exact ⟨rfl, hnc⟩
+      · cases N with
+        | bip name args σ nb more =>
+          have hname : name ≠ "!" := hnc
+          simp only [next, Node.nb] at hn hnb
+          simp only [hnb, if_false, hname] at hn
+          by_cases hm : (!more) = true
+          · simp only [hm, if_true] at hn; cases hn; exact ⟨rfl, hname⟩
+          · simp only [hm, if_false] at hn
+            obtain ⟨r, _, hn⟩ := Res.bind_eq_ok.mp hn
+            cases hn; exact ⟨rfl, hname⟩
+        | call t σ nb child idx n =>
+          exact ⟨next_call_nocut fo kb (f + 1) t σ nb child idx n g st hn,
+            ncN_of_call (by rw [next_kind fo kb (f + 1) _ g st hn]; rfl)⟩
+        | op kd σ nb more head rest tail =>
+          obtain ⟨hrest, hhead, htail⟩ := ncN_parts hnc
+          have hnb' : nb = false := by simpa [Node.nb] using hnb
+          subst hnb'
+          cases kd with
+          | and =>
+            simp only [next, Node.nb, Bool.false_eq_true, if_false] at hn
+            cases tail with
+            | none => exact ihA σ false more head rest none false g st hn rfl hrest hhead trivial
+            | some tn =>
+              simp only at hn
+              obtain ⟨r, hr, hn⟩ := Res.bind_eq_ok.mp hn
+              obtain ⟨hrc, hrn⟩ := ihN tn g r hr htail
+              simp only [hrc, Bool.false_eq_true, if_false, Bool.or_false] at hn
+              by_cases hsol : r.sol.isSome = true
+              · simp only [hsol, if_true] at hn; cases hn
+                exact ⟨rfl, ncN_op hrest hhead hrn⟩
+              · simp only [hsol, Bool.false_eq_true, if_false] at hn
+                exact ihA σ false more head rest (some r.node) false r.g st hn rfl hrest hhead hrn
+          | or =>
+            simp only [next, Node.nb, Bool.false_eq_true, if_false] at hn
+            cases tail with
+            | some tn =>
+              simp only at hn
+              obtain ⟨r, hr, hn⟩ := Res.bind_eq_ok.mp hn
+              obtain ⟨hrc, hrn⟩ := ihN tn g r hr htail
+              simp only [hrc, Bool.false_eq_true, if_false, Bool.or_false] at hn
+              cases hn
+              exact ⟨rfl, ncN_op hrest hhead hrn⟩
+            | none =>
+              simp only at hn
+              obtain ⟨r, hr, hn⟩ := Res.bind_eq_ok.mp hn
+              obtain ⟨hrc, hrn⟩ := ihN head g r hr hhead
+              simp only [hrc, Bool.false_eq_true, if_false, Bool.or_false] at hn
+              by_cases hsol : r.sol.isSome = true
+              · simp only [hsol, if_true] at hn; cases hn
+                exact ⟨rfl, ncN_op hrest hrn trivial⟩
+              · simp only [hsol, Bool.false_eq_true, if_false] at hn
+                by_cases hrl : (rest.length == 0) = true
+                · simp only [hrl, if_true] at hn; cases hn
+                  exact ⟨rfl, ncN_op hrest hrn trivial⟩
+                · simp only [hrl, Bool.false_eq_true, if_false] at hn
+                  obtain ⟨m, hm, hn⟩ := Res.bind_eq_ok.mp hn
+                  obtain ⟨r2, hr2, hn⟩ := Res.bind_eq_ok.mp hn
+                  have hmn : ncN m.1 := mkNode_nc fo.showF kb (.or rest) σ r.g m.1 m.2 hm (by simpa [ncG] using hrest)
+                  obtain ⟨hrc2, hrn2⟩ := ihN m.1 m.2 r2 hr2 hmn
+                  simp only [hrc2, Bool.false_eq_true, if_false, Bool.or_false] at hn
+                  cases hn
+                  exact ⟨rfl, ncN_op hrest hrn hrn2⟩
+          | time =>
+            simp only [next, Node.nb, Bool.false_eq_true, if_false] at hn
+            by_cases hm : (!more) = true
+            · simp only [hm, if_true] at hn; cases hn; exact ⟨rfl, hnc⟩
+            · simp only [hm, Bool.false_eq_true, if_false] at hn
+              obtain ⟨r, hr, hn⟩ := Res.bind_eq_ok.mp hn
+              obtain ⟨hrc, hrn⟩ := ihN head g r hr hhead
+              simp only [hrc, Bool.false_eq_true, if_false, Bool.or_false] at hn
+              cases hn
+              exact ⟨rfl, ncN_op hrest hrn htail⟩
+          | not =>
+            simp only [next, Node.nb, Bool.false_eq_true, if_false] at hn
+            by_cases hm : (!more) = true
+            · simp only [hm, if_true] at hn; cases hn; exact ⟨rfl, hnc⟩
+            · simp only [hm, Bool.false_eq_true, if_false] at hn
+              obtain ⟨r, hr, hn⟩ := Res.bind_eq_ok.mp hn
+              obtain ⟨hrc, hrn⟩ := ihN head g r hr hhead
+              simp only [hrc, Bool.false_eq_true, if_false, Bool.or_false] at hn
+              cases hn
+              exact ⟨rfl, ncN_op hrest hrn htail⟩
+    · intro σ nb more head rest tail cutAcc g st hn hca hrest hhead htail
+      subst hca
+      simp only [andLoop] at hn
+      obtain ⟨r, hr, hn⟩ := Res.bind_eq_ok.mp hn
+      obtain ⟨hrc, hrn⟩ := ihN head g r hr hhead
+      simp only [hrc, Bool.false_eq_true, if_false, Bool.or_false] at hn
+      cases hs : r.sol with
+      | none => rw [hs] at hn; simp only at hn; cases hn; exact ⟨rfl, ncN_op hrest hrn htail⟩
+      | some ss =>
+        rw [hs] at hn
+        simp only at hn
+        by_cases hrl : (rest.length == 0) = true
+        · simp only [hrl, if_true] at hn; cases hn; exact ⟨rfl, ncN_op hrest hrn htail⟩
+        · simp only [hrl, Bool.false_eq_true, if_false] at hn
+          obtain ⟨m, hm, hn⟩ := Res.bind_eq_ok.mp hn
+          obtain ⟨r2, hr2, hn⟩ := Res.bind_eq_ok.mp hn
+          have hmn : ncN m.1 := mkNode_nc fo.showF kb (.and rest) ss r.g m.1 m.2 hm (by simpa [ncG] using hrest)
+          obtain ⟨hrc2, hrn2⟩ := ihN m.1 m.2 r2 hr2 hmn
+          simp only [hrc2, Bool.false_eq_true, if_false, Bool.or_false] at hn
+          by_cases hsol : r2.sol.isSome = true
+          · simp only [hsol, if_true] at hn; cases hn
+            exact ⟨rfl, ncN_op hrest hrn hrn2⟩
+          · simp only [hsol, Bool.false_eq_true, if_false] at hn
+            exact ihA σ nb more r.node rest (some r2.node) false r2.g st hn rfl hrest hrn hrn2
 
 /-- the child a call node still holds from an exhausted clause body -/
 def StaleOK (child : Option Node) : Prop :=
@@ -1216,6 +1470,129 @@ theorem step_or (fo : FloatOps) (kb : KB) (f : Nat) (ihN : StmtN fo kb f)
               unfold askable
               exact ⟨hc', hask2 hc' hmask⟩
 
+theorem step_not (fo : FloatOps) (kb : KB) (f : Nat) (ihN : StmtN fo kb f)
+    (σ : Subst) (nb more : Bool) (head : Node) (rest : GoalList) (tail : Option Node)
+    (G0 : G) (st : Step) (k : List CG) (bar h : Nat) (B : List CFrame)
+    (hn : next fo kb (f + 1) (.op .not σ nb more head rest tail) G0 = .ok st)
+    (hcn : okN (.op .not σ nb more head rest tail)) (hg : GOK G0) :
+    RefC fo kb st G0 (absC false (.op .not σ nb more head rest tail) k bar h ++ B) k bar h B ∧ st.cut = false := by
+  cases nb with
+  | true =>
+    have e := next_marked fo kb (f + 1) _ G0 st hn rfl
+    subst e
+    refine ⟨⟨⟨?_, fun _ => absC_nb _ rfl⟩, hcn, hg⟩, rfl⟩
+    rw [absC_nb _ rfl]
+    exact CSteps.refl
+  | false =>
+    have hcn0 := hcn
+    unfold okN at hcn
+    obtain ⟨hch, hnch⟩ := hcn
+    simp only [next, Node.nb, Bool.false_eq_true, if_false] at hn
+    cases more with
+    | false =>
+      simp only [Bool.not_false, if_true] at hn
+      cases hn
+      refine ⟨⟨⟨?_, fun _ k' b' h' => by simp [absC]⟩, hcn0, hg⟩, rfl⟩
+      simp only [absC, Bool.not_false, Bool.or_true, if_true, List.nil_append, bOf, Bool.false_eq_true, if_false]
+      exact CSteps.refl
+    | true =>
+      simp only [Bool.not_true, Bool.false_eq_true, if_false] at hn
+      obtain ⟨r, hr, hn⟩ := Res.bind_eq_ok.mp hn
+      obtain ⟨hrc, hrn⟩ := (nc_all fo kb f).1 head G0 r hr hnch
+      obtain ⟨href, _, hat, _⟩ := ihN head G0 r (grpK head 0 []) 0 0 [] hr hch hg rfl (Nat.le_refl _)
+      simp only [hrc, Bool.false_eq_true, if_false, Bool.or_false] at hn
+      cases hn
+      have hokn : okN (.op .not σ false false r.node rest tail) := by unfold okN; exact ⟨href.2.1, hrn⟩
+      refine ⟨⟨?_, hokn, href.2.2⟩, rfl⟩
+      have hstart : absC false (.op .not σ false true head rest tail) k bar h ++ B =
+          .notF (absC false head (grpK head 0 []) 0 0) σ k :: B := by simp [absC]
+      rw [hstart]
+      cases hs : r.sol with
+      | some σ' =>
+        have hd := head_done fo kb f head G0 r _ [] 0 0 [] hr rfl (Nat.le_refl _) href hat σ' hs
+        rw [hrc] at hd
+        simp only [kOf, hOf, bOf, Bool.false_eq_true, if_false, List.append_nil] at hd
+        have := hd.notIn σ k B
+        simp only at this
+        simp only [Option.isSome_some, if_true]
+        refine ⟨?_, fun _ k' b' h' => by simp [absC]⟩
+        simp only [bOf, Bool.false_eq_true, if_false]
+        exact this.trans (CSteps.one CStep.notFail)
+      | none =>
+        have h1 := href.1
+        rw [hs] at h1
+        have h2 := h1.1
+        rw [hrc] at h2
+        simp only [bOf, Bool.false_eq_true, if_false, List.append_nil] at h2
+        have := h2.notIn σ k B
+        simp only at this
+        simp only [Option.isSome_none, Bool.false_eq_true, if_false, kOf, hOf, bOf]
+        have e : absC false (.op .not σ false false r.node rest tail) k bar h = [] := by simp [absC]
+        rw [e, List.nil_append]
+        exact this.trans (CSteps.one CStep.notOk)
+
+theorem step_time (fo : FloatOps) (kb : KB) (f : Nat) (ihN : StmtN fo kb f)
+    (σ : Subst) (nb more : Bool) (head : Node) (rest : GoalList) (tail : Option Node)
+    (G0 : G) (st : Step) (k : List CG) (bar h : Nat) (B : List CFrame)
+    (hn : next fo kb (f + 1) (.op .time σ nb more head rest tail) G0 = .ok st)
+    (hcn : okN (.op .time σ nb more head rest tail)) (hg : GOK G0) :
+    RefC fo kb st G0 (absC false (.op .time σ nb more head rest tail) k bar h ++ B) k bar h B ∧ st.cut = false := by
+  cases nb with
+  | true =>
+    have e := next_marked fo kb (f + 1) _ G0 st hn rfl
+    subst e
+    refine ⟨⟨⟨?_, fun _ => absC_nb _ rfl⟩, hcn, hg⟩, rfl⟩
+    rw [absC_nb _ rfl]
+    exact CSteps.refl
+  | false =>
+    have hcn0 := hcn
+    unfold okN at hcn
+    obtain ⟨hch, hnch⟩ := hcn
+    simp only [next, Node.nb, Bool.false_eq_true, if_false] at hn
+    cases more with
+    | false =>
+      simp only [Bool.not_false, if_true] at hn
+      cases hn
+      refine ⟨⟨⟨?_, fun _ k' b' h' => by simp [absC]⟩, hcn0, hg⟩, rfl⟩
+      simp only [absC, Bool.not_false, Bool.or_true, if_true, List.nil_append, bOf, Bool.false_eq_true, if_false]
+      exact CSteps.refl
+    | true =>
+      simp only [Bool.not_true, Bool.false_eq_true, if_false] at hn
+      obtain ⟨r, hr, hn⟩ := Res.bind_eq_ok.mp hn
+      obtain ⟨hrc, hrn⟩ := (nc_all fo kb f).1 head G0 r hr hnch
+      obtain ⟨href, _, hat, _⟩ := ihN head G0 r (grpK head 0 []) 0 0 [] hr hch hg rfl (Nat.le_refl _)
+      simp only [hrc, Bool.false_eq_true, if_false, Bool.or_false] at hn
+      cases hn
+      have hokn : okN (.op .time σ false false r.node rest tail) := by unfold okN; exact ⟨href.2.1, hrn⟩
+      have ho := cEmit_eq r.g "<elapsed>"
+      refine ⟨⟨?_, hokn, GOK_emit href.2.2 _⟩, rfl⟩
+      have hstart : absC false (.op .time σ false true head rest tail) k bar h ++ B =
+          .timeF (absC false head (grpK head 0 []) 0 0) k :: B := by simp [absC]
+      rw [hstart]
+      have e : absC false (.op .time σ false false r.node rest tail) k bar h = [] := by simp [absC]
+      cases hs : r.sol with
+      | some σ' =>
+        have hd := head_done fo kb f head G0 r _ [] 0 0 [] hr rfl (Nat.le_refl _) href hat σ' hs
+        rw [hrc] at hd
+        simp only [kOf, hOf, bOf, Bool.false_eq_true, if_false, List.append_nil] at hd
+        have := hd.timeIn k B
+        simp only at this
+        simp only [kOf, hOf, bOf, Bool.false_eq_true, if_false]
+        rw [e, List.nil_append, ho.1, ho.2]
+        exact this.trans (CSteps.one CStep.timeSome)
+      | none =>
+        have h1 := href.1
+        rw [hs] at h1
+        have h2 := h1.1
+        rw [hrc] at h2
+        simp only [bOf, Bool.false_eq_true, if_false, List.append_nil] at h2
+        have := h2.timeIn k B
+        simp only at this
+        refine ⟨?_, fun _ k' b' h' => by simp [absC]⟩
+        simp only [bOf, Bool.false_eq_true, if_false]
+        rw [ho.1, ho.2]
+        exact this.trans (CSteps.one CStep.timeNone)
+
 /-- REFINEMENT with the cut and nested groups: by induction on the fuel, for `next`, the clause loop and the conjunction
     loop together -/
 theorem next_refines_group (fo : FloatOps) (kb : KB) (hkb : OkKB kb) : ∀ f, StmtN fo kb f ∧ StmtC fo kb f ∧ StmtA fo kb f := by
@@ -1255,8 +1632,26 @@ theorem next_refines_group (fo : FloatOps) (kb : KB) (hkb : OkKB kb) : ∀ f, St
           obtain ⟨a, b⟩ := step_or fo kb f ihN σ nb more head rest tail G0 st k bar h B hn hcn hg hB hbar
           refine ⟨a, ?_, fun hgr => by simp [isGrp] at hgr, b⟩
           rintro ⟨_, _, _, _, _, _, e⟩; cases e
-        | not => exact hcn.elim
-        | time => exact hcn.elim
+        | not =>
+          obtain ⟨a, b⟩ := step_not fo kb f ihN σ nb more head rest tail G0 st k bar h B hn hcn hg
+          refine ⟨a, fun _ => b, ?_, ?_⟩
+          · intro _ hc; rw [b] at hc; cases hc
+          · intro _ _
+            have := next_kind fo kb (f + 1) _ G0 st hn
+            cases hs : st.node with
+            | bip _ _ _ _ _ => trivial
+            | call _ _ _ _ _ _ => trivial
+            | op kd _ _ _ _ _ _ => rw [hs] at this; cases kd <;> first | trivial | simp [kindOf] at this
+        | time =>
+          obtain ⟨a, b⟩ := step_time fo kb f ihN σ nb more head rest tail G0 st k bar h B hn hcn hg
+          refine ⟨a, fun _ => b, ?_, ?_⟩
+          · intro _ hc; rw [b] at hc; cases hc
+          · intro _ _
+            have := next_kind fo kb (f + 1) _ G0 st hn
+            cases hs : st.node with
+            | bip _ _ _ _ _ => trivial
+            | call _ _ _ _ _ _ => trivial
+            | op kd _ _ _ _ _ _ => rw [hs] at this; cases kd <;> first | trivial | simp [kindOf] at this
     · intro t σ nb child idx n G0 st k bar h B hn hnb hch hg hB hbar
       subst hnb
       exact step_callLoop fo kb hkb f ihN ihC t σ child idx n G0 st k bar h B hn hch hg hB hbar
